@@ -3,7 +3,7 @@ reg("C09",
     anchor_files=["src/hgraph/runtime/nested_graph_node.cpp", "include/hgraph/runtime/nested_graph_node.h", "include/hgraph/runtime/nested_bindings.h",
                   "include/hgraph/runtime/nested_graph_storage.h", "src/hgraph/runtime/graph.cpp", "include/hgraph/types/subgraph_wiring.h",
                   "src/hgraph/types/graph_wiring.cpp"],
-    quick=dict(defs=dict(NX=2, NT=2, DMAX=3, WMAX=5, DEPTH=2, PMAX=2), symx=dict(shards=16, **{"max-wall": 900})),
+    quick=dict(defs=dict(NX=2, NT=2, DMAX=3, WMAX=5, DEPTH=2, PMAX=2), symx=dict(shards=16, **{"max-wall": 900, "shard-depth": 8})),
     thorough=dict(defs=dict(NX=3, NT=3, DMAX=3, WMAX=8, DEPTH=3), symx=dict(shards=16, **{"max-wall": 3000, "shard-depth": 8})),
     reach=["end", "two_output_ticks", "child_timer_fired_while_parent_idle", "child_timer_consecutive_steps", "pass_through_ticked",
            "captured_port_ticked", "unchecked_consumer", "ref_boundary_second_tick", "outer_tick_while_child_wakeup_pending", "parent_has_unrelated_earlier_wakeup", "deepest_mode_evaluated_children"],
